@@ -316,6 +316,7 @@ def audit(form, xform):
     body = root.find(xf.H + "body")
     exp = read_sheet(form["survey"])
     probs = []
+    tl_sections = {r.get("name") for r in form["survey"] if r.get("type", "").startswith("begin") and "table-list" in str(r.get("appearance", ""))}
 
     def name_of(e):
         return etree.QName(e).localname
@@ -324,6 +325,8 @@ def audit(form, xform):
         kids = [c for c in e if isinstance(c.tag, str)]
         live = [c for c in kids if c.get(JRT) is None]
         got = [name_of(c) for c in live]
+        if path.rsplit("/", 1)[-1] in tl_sections and got and re.fullmatch(r"generated_table_list_label_\d+", got[0]):
+            live, got = live[1:], got[1:]       # the label row a table-list section generates for itself (documented)
         want = [x[1] for x in expected]
         if path == "/" + name_of(inst):
             got = [g for g in got if g != "meta"]
@@ -369,6 +372,8 @@ def audit(form, xform):
                     continue
                 want.append((tag.split(":")[-1], f"{path}/{x[1]}", x))
         got = [(name_of(c), c.get("ref")) for c in cs]
+        if path.rsplit("/", 1)[-1] in tl_sections and got and re.fullmatch(r".*/generated_table_list_label_\d+", got[0][1] or ""):
+            cs, got = cs[1:], got[1:]
         if got != [(w[0], w[1]) for w in want]:
             probs.append(f"body under {path}: {got} but the sheet dictates {[(w[0], w[1]) for w in want]}")
             return
@@ -419,7 +424,7 @@ def _check(args):
     if rng.random() < 0.3:
         survey.insert(rng.randint(0, len(survey)), {"relevant": "comment row without type name or label"})
     if i % 3 == 2:
-        forms.add_exotics(rng_for(seed, PID, "exotic", i), form, ["count_expr", "count_expr", "empty_group", "calc_msgs", "hint_only_computed", "hint_only_computed", "seeded_select"], p=0.5)
+        forms.add_exotics(rng_for(seed, PID, "exotic", i), form, ["count_expr", "count_expr", "empty_group", "calc_msgs", "hint_only_computed", "hint_only_computed", "seeded_select", "table_list_repeat_plain", "shared_repeat_name"], p=0.5)
     st, r = xf.convert_form(forms.as_dict(form))
     if st != "ok":
         return {"i": i, "skip": st + ":" + str(r)[:60]}
